@@ -31,7 +31,7 @@ run m2-cap3 'if numberOfDecimals > 4 {
 		numberOfDecimals = 4' 'if numberOfDecimals > 3 {
 		numberOfDecimals = 3'
 run m3-scale-cond 'if numberValue != 0 {' 'if numberValue == 0 {'
-run m4-floor 'math.Trunc(value' 'math.Floor(value'
+run m4-floor 'math.Round(value' 'math.Floor(value'
 run m5-no-utc 's := t.Round(time.Second).UTC().Format("2006-01-02T15:04:05Z")' 's := t.Round(time.Second).Format("2006-01-02T15:04:05Z")'
 run m6-truncate-instant 's := t.Round(time.Second).UTC()' 's := t.Truncate(time.Second).UTC()'
 run m7-period-noround '	duration = duration.Round(time.Second)
@@ -42,10 +42,32 @@ run m10-duration-minutes 'return p.DurationApprox(), nil' 'return p.DurationAppr
 run m11-layout-order '"2006-01-02T15:04:05.999999999Z",
 		"2006-01-02T15:04:05",
 		"2006-01-02T15:04:05Z",' '"2006-01-02T15:04:05",'
-# the planned repairs, one at a time and together: the check must stay green (exit 0), with the known
-# findings that the repair removes no longer reproduced
-run r1-round-only 'math.Trunc(value' 'math.Round(value'
-run r2-divide-only '	return float64(*m.Number) * math.Pow(10, scale)' '	if scale < 0 {
-		return float64(*m.Number) / math.Pow(10, -scale)
+# the two repairs of /repo undone again (fix: commits b0796d5, bf619ae): the findings are listed as fixed, so
+# their return is a VIOLATION
+run r1-trunc-again 'math.Round(value' 'math.Trunc(value'
+run r2-multiply-again 'return float64(*m.Number) / math.Pow(10, -scale)' 'return float64(*m.Number) * math.Pow(10, scale)'
+# behaviour-preserving: the layouts come out of a function, which the static search cannot follow - the
+# static cross-check becomes vacuous (astParseKnown = false), the check must stay green (exit 0)
+run b1-layouts-from-func '		"2006-01-02T15:04:05Z",
 	}
-	return float64(*m.Number) * math.Pow(10, scale)'
+
+	for _, format := range allowedFormats {
+		if value, err := time.ParseInLocation(format, string(*d), time.UTC); err == nil {
+			return value, nil
+		}
+	}
+
+	return time.Time{}, errors.New("unsupported datetime format")' '		"2006-01-02T15:04:05Z",
+	}
+
+	for _, format := range passThrough(allowedFormats) {
+		if value, err := time.ParseInLocation(format, string(*d), time.UTC); err == nil {
+			return value, nil
+		}
+	}
+
+	return time.Time{}, errors.New("unsupported datetime format")
+}
+
+func passThrough(x []string) []string {
+	return x'
